@@ -73,6 +73,14 @@ def enumerated(tier):
     for rel in ("never", "start", "join+1.5"):
         for cmd in ("info", "verify"):
             yield {"release": rel, "outcome": {"kind": "tag", "tag": "99.0"}, "command": cmd, "state": "clean", "subprocess": True}
+    # version classes that must (or must not) trigger the notice, answered in time
+    for tag in ("99.0", "v99.1", "99.0.post1", "99.0a1", "99.0rc1", "99.0b2", "99.0.dev1", "0.0.1", "99.0.0-rc.1", "1!0.0.1", "2026092715300000000012345-g1a2b3c"):
+        for rel in ("start", "at_join"):
+            yield {"release": rel, "outcome": {"kind": "tag", "tag": tag}, "command": "info", "state": "clean"}
+    for cmd in ("info_verbose", "verify_verbose"):
+        for kind in ("ConnectionError", "http"):
+            for rel in ("in_command", "at_join", "join+0.3"):
+                yield {"release": rel, "outcome": {"kind": kind, "status": 503}, "command": cmd, "state": "clean"}
     if tier == "thorough":
         for rel in RELEASES:
             for kind in ("ConnectionError", "not_json", "no_tag"):
